@@ -114,6 +114,13 @@ int main(int argc, char **argv) {
       if (!(threads_first && i == 0) && r.below(5) == 0) { op.binfile = true; op.binpath = dir + "/o" + std::to_string(t) + "_" + std::to_string(i) + ".bin"; }
       scripts[t].push_back(op);
     }
+    // every fourth operation slot: all threads assemble one and the same source file (behind a long comment, so that their reads overlap),
+    // each on its own instance with its own options - a shared input is no shared state
+    if (!threads_first) for (int i = 0; i < nops; i++) if ((round + i) % 4 == 0) {
+      std::string shared = dir + "/shared_" + std::to_string(i) + ".asm", text = "; " + std::string(200000 + 4096 * (size_t)((round + i) % 5), 'x') + "\n" + scripts[0][i].program;
+      FILE *f = fopen(shared.c_str(), "wb"); if (!f) continue; fwrite(text.data(), 1, text.size(), f); fclose(f);
+      for (int t = 0; t < nth; t++) { Op &op = scripts[t][i]; op.via_file = 1; op.path = shared; op.program = text; if (op.start > 100) op.start = 0; }
+    }
     if (!threads_first) for (int t = 0; t < nth; t++) for (auto &op : scripts[t]) ref[t].push_back(exec(op, false));   // single-threaded reference
     pthread_barrier_t bar; pthread_barrier_init(&bar, nullptr, nth);
     std::vector<pthread_t> th(nth); std::vector<ThreadArg> args(nth);
